@@ -30,7 +30,7 @@ def u_threading(ip):
 
 def mh_step_contract(ip, args, kwargs):
     """contract of mh_step proved by C05: returns the input state itself or update_state(proposal, state)"""
-    key, model, proposal, state = args[:4]
+    key, model, proposal, state = bind_args(ip, "liesel/goose/mh.py::mh_step", args, kwargs)[:4]
     ip.ctx.ghost["mh_proposal"] = proposal
     info = new_obj(ip, "liesel/goose/kernel.py::DefaultTransitionInfo", error_code=ip.ctx.fresh("code", Int), acceptance_prob=ip.ctx.fresh("acc", Real), position_moved=ip.ctx.fresh("moved", Int))
     if ip.ctx.branch(ip.ctx.fresh("accepted", Bool), "mh-accept"):
@@ -38,7 +38,7 @@ def mh_step_contract(ip, args, kwargs):
     return info, state
 
 
-def frame_unit(kind):
+def frame_unit(kind, uid=None, prop="C09"):
     if kind == "Gibbs":
         rel, kcls = GIBBS, "GibbsKernel"
         fn = f"{rel}::{kcls}.transition"
@@ -46,7 +46,7 @@ def frame_unit(kind):
         rel, kcls, _ = KERNELS[kind]
         fn = f"{rel}::{kcls}._standard_transition"
 
-    @unit(f"C09.frame.{kind}", "C09", [fn, "liesel/goose/kernel.py::ModelMixin.position", "liesel/goose/kernel.py::ModelMixin.log_prob_fn", "liesel/goose/kernel.py::ModelMixin.model.fget"],
+    @unit(uid or f"C09.frame.{kind}", prop, [fn, "liesel/goose/kernel.py::ModelMixin.position", "liesel/goose/kernel.py::ModelMixin.log_prob_fn", "liesel/goose/kernel.py::ModelMixin.model.fget"],
           summaries=["mh_step (C05)", "iwls_utils (C06 bounded)", "blackjax (A-BJX: the returned position has the keys it was given)"])
     def u(ip, kind=kind):
         """a transition returns either the very model state it was given (rejection) or update_state(P, given state), where P
@@ -81,8 +81,12 @@ def frame_unit(kind):
                 ip.models[nm] = lambda ip_, pos, fn_: PyObj("bj_state0", position=pos, logdensity_fn=fn_)
         ms = z3.Const("given_state", U)
         if kind == "Gibbs":
+            ip.models["jax.numpy.result_type"] = lambda ip_, *a: ip_.uf("dtype_of", *[ip_.to_U(x) for x in a])
+            ip.models["jax.numpy.asarray"] = lambda ip_, x, dtype=None, **kw: x if dtype is None else ip_.uf("cast", ip_.to_U(x), ip_.to_U(dtype))
             user = PyFn(lambda ip_, key, st: {k: ip_.uf("gibbs_draw_" + k, ip_.to_U(key), ip_.to_U(st)) for k in keys}, "transition_fn")
-            k = new_obj(ip, f"{GIBBS}::GibbsKernel", _model=model_stub(ip), position_keys=keys, _transition_fn=user, identifier="g")
+            k = ip.call(ip.repo(f"{GIBBS}::GibbsKernel"), [list(keys), user], {})  # the REAL constructor
+            ip.call(method(ip, k, "set_model"), [model_stub(ip)], {})
+            ip.setattr(k, "identifier", "g")
             out = ip.call(method(ip, k, "transition"), [z3.Const("key", U), {}, ms, sym_epoch_state(ip)], {})
         else:
             k = sym_kernel(ip, kind, keys=keys)
@@ -121,6 +125,13 @@ def frame_unit(kind):
                     seen.append(str(t.arg(1)))
                     t = t.arg(0)
                 c.oblige("position_has_exactly_own_keys", sorted(seen) == sorted(f"str:{k_}" for k_ in keys) and str(t) == "emptydict")
+                if kind == "Gibbs":
+                    # the values that reach the state are the transition function's draws themselves (no cast, rounding or clipping in between)
+                    t, vals_ = new.arg(0), {}
+                    while t.decl().name().startswith("dictput"):
+                        vals_[str(t.arg(1))] = t.arg(2)
+                        t = t.arg(0)
+                    c.oblige("draws_reach_the_state_unmodified", all(f"str:{k_}" in vals_ and vals_[f"str:{k_}"].eq(ip.uf("gibbs_draw_" + k_, z3.Const("key", U), ms)) for k_ in keys))
         elif kind == "MH":
             c.oblige("user_proposal_forwarded", isinstance(P, dict) and all(str(P[k_].decl().name()).startswith("user_prop") for k_ in P))
         else:
@@ -264,4 +275,16 @@ def u_builder_kernels(ip):
 from contracts.c03 import liesel_unit  # noqa: E402
 
 liesel_unit("direct", uid="C09.coherent_state.direct", prop="C09")
+liesel_unit("weakdist", uid="C09.coherent_state.weakdist", prop="C09")
+liesel_unit("transformed", uid="C09.coherent_state.transformed", prop="C09")  # a derived quantity whose definition depends on ANOTHER block's parameter
+liesel_unit("weakdist_deep", uid="C09.coherent_state.weakdist_deep", prop="C09")
+liesel_unit("weakdist_deep", uid="C09.coherent_state.weakdist_deep.single_key", prop="C09", single_key=True)
+liesel_unit("hier", uid="C09.coherent_state.hier.single_key", prop="C09", single_key=True)
 liesel_unit("diamond", auto_update=False, uid="C09.coherent_state.diamond.auto_update_off", prop="C09")
+
+
+# the builder and the engine constructor end to end through the public API (same harness as C10.build_end_to_end)
+from contracts.c10 import build_whole_unit  # noqa: E402
+
+build_whole_unit("C09.build_end_to_end", "C09", "A")
+build_whole_unit("C09.build_end_to_end.variant_b", "C09", "B")
